@@ -1,9 +1,167 @@
-(* C04 — property theorems only. *)
+(* C04 — property theorems only (every proof is `exact <lemma>` or a closed computation). *)
 From Coq Require Import List NArith ZArith Bool.
 Import ListNotations.
-From VF Require Import C04.Model C04.Inst gen.Gen_C04.
+From VF Require Import C04.Model C04.Inst C04.Proofs C04.ProofsSvc gen.Gen_C04.
 Local Open Scope N_scope.
 
-Theorem placeholder_table_nonempty : table <> [].
-Proof. discriminate. Qed.
-Print Assumptions placeholder_table_nonempty.
+(* ===== codecs (all inputs) ===== *)
+
+(* IEEE-P1363, every curve size n (in particular 32, 48, 66): for ALL r, s below 256^n — leading-zero scalars
+   included — the encoding has exactly 2n bytes and decodes to exactly (r, s). *)
+Theorem p1363_roundtrip : forall (n : nat) (r s : N),
+  (1 <= n <= 66)%nat -> r < 256 ^ N.of_nat n -> s < 256 ^ N.of_nat n ->
+  length (p1363_encode n r s) = (2 * n)%nat /\ p1363_decode (p1363_encode n r s) = Some (r, s).
+Proof. exact p1363_roundtrip_l. Qed.
+Print Assumptions p1363_roundtrip.
+
+(* two byte strings of the same length accepted by the P1363 decoder with the same (r,s) are the same string:
+   any single-position alteration of a signature changes the (r,s) it carries (or is rejected) *)
+Theorem p1363_decode_injective : forall (a b : bytes) (r s : N),
+  Forall (fun d => d < 256) a -> Forall (fun d => d < 256) b -> length a = length b ->
+  p1363_decode a = Some (r, s) -> p1363_decode b = Some (r, s) -> a = b.
+Proof. exact p1363_decode_inj_l. Qed.
+Print Assumptions p1363_decode_injective.
+
+(* DER strictness: an accepted byte string IS the canonical encoding of what it decodes to (no trailing bytes,
+   no non-minimal lengths or integers), hence the decoder is injective on everything it accepts *)
+Theorem der_strict : forall (b : bytes) (r s : Z), der_decode b = Some (r, s) -> b = der_encode r s.
+Proof. exact der_decode_strict_l. Qed.
+Print Assumptions der_strict.
+
+Theorem der_decode_injective : forall (a b : bytes) (r s : Z),
+  der_decode a = Some (r, s) -> der_decode b = Some (r, s) -> a = b.
+Proof. exact der_decode_inj_l. Qed.
+Print Assumptions der_decode_injective.
+
+(* the P1363 codec carries every in-range value for every curve size of the table; opaque encodings trivially *)
+Theorem codec_carries_p1363 : forall (n : nat) (r s : Z),
+  (1 <= n <= 66)%nat -> (0 <= r < 256 ^ Z.of_nat n)%Z -> (0 <= s < 256 ^ Z.of_nat n)%Z ->
+  codec_ok (EncP1363 n) (SRS r s).
+Proof. exact codec_ok_p1363. Qed.
+Print Assumptions codec_carries_p1363.
+
+(* ===== the generated key-type table (regenerated from /repo on every run) ===== *)
+
+(* table_total + prefix_consistent: every signing key type the KMS can create is exportable and re-importable, has the
+   RAW output prefix at creation AND after re-import, the same signature encoding on both sides, curve size 32/48/66 *)
+Theorem table_signing_types_consistent : forallb sig_row_consistent table = true.
+Proof. exact table_sig_consistent. Qed.
+Print Assumptions table_signing_types_consistent.
+
+(* every AEAD key type the KMS can create: crypto.go's nonceSize = the primitive's own nonce size *)
+Theorem table_nonce_size_right : forallb aead_row_consistent table = true.
+Proof. exact table_aead_consistent. Qed.
+Print Assumptions table_nonce_size_right.
+
+(* ===== sign -> export -> re-import in another KMS -> verify ===== *)
+(* Ideal-primitive assumptions are the visible hypotheses: correctness of the core scheme, and that a core signature
+   is bound to its key and message.  `codec_ok` (the codec carries the produced value) is discharged for all P1363
+   sizes by codec_carries_p1363 and for opaque encodings by codec_ok_opaque. *)
+Theorem sign_verify_export :
+  forall (msg : Type) (core_sign : N -> msg -> N -> sval) (core_verify : N -> msg -> sval -> bool),
+  (forall k m rd, core_verify k m (core_sign k m rd) = true) ->
+  forall (rw : ktrow) (kid mat : N) (m : msg) (rd : N),
+  In rw table -> kt_kind rw = KSig -> kt_creatable rw = true ->
+  codec_ok (kt_enc rw) (core_sign mat m rd) ->
+  exists sig, svc_sign core_sign (created_key rw kid mat) m rd = Some sig /\
+              svc_verify core_verify (reimport (created_key rw kid mat) (kt_import_enc rw)) sig m = true.
+Proof. intros msg cs cv Hc rw kid mat m rd. exact (sign_verify_export_table msg cs cv Hc rw kid mat m rd). Qed.
+Print Assumptions sign_verify_export.
+
+Theorem other_key_or_message_rejected :
+  forall (msg : Type) (core_sign : N -> msg -> N -> sval) (core_verify : N -> msg -> sval -> bool),
+  (forall k m rd k' m', (k <> k' \/ m <> m') -> core_verify k' m' (core_sign k m rd) = false) ->
+  forall (k : skey) (m : msg) (rd : N) (k' : skey) (m' : msg) (sig : bytes),
+  s_pt k = PRaw -> svc_sign core_sign k m rd = Some sig ->
+  codec_ok (s_enc k) (core_sign (s_mat k) m rd) -> s_enc k' = s_enc k ->
+  (s_mat k <> s_mat k' \/ m <> m') ->
+  svc_verify core_verify (reimport k' (s_enc k')) sig m' = false.
+Proof. intros msg cs cv Hs. exact (other_key_or_msg_rejected msg cs cv Hs). Qed.
+Print Assumptions other_key_or_message_rejected.
+
+(* an accepted altered signature (same length, any position(s)) would be a different signature VALUE valid in the core
+   scheme for the same key and message: the encoding / prefix / keyset layer accepts nothing beyond the core scheme *)
+Theorem altered_signature_accepted_only_if_core_forgery :
+  forall (msg : Type) (core_sign : N -> msg -> N -> sval) (core_verify : N -> msg -> sval -> bool),
+  forall (k : skey) (m : msg) (rd : N) (sig sig' : bytes),
+  s_pt k = PRaw -> svc_sign core_sign k m rd = Some sig ->
+  codec_ok (s_enc k) (core_sign (s_mat k) m rd) ->
+  Forall (fun d => d < 256) sig -> Forall (fun d => d < 256) sig' -> length sig' = length sig -> sig' <> sig ->
+  svc_verify core_verify (reimport k (s_enc k)) sig' m = true ->
+  exists v', dec_sig (s_enc k) sig' = Some v' /\ v' <> core_sign (s_mat k) m rd /\ core_verify (s_mat k) m v' = true.
+Proof. intros msg cs cv. exact (altered_accepted_is_core_forgery msg cs cv). Qed.
+Print Assumptions altered_signature_accepted_only_if_core_forgery.
+
+(* HISTORICAL REFUTATION (before fix a669567): the created ECDSASecp256k1IEEEP1363 key carried the Tink prefix; with
+   the symbolic instance (which satisfies the hypotheses) the genuine signature is rejected by the re-imported key. *)
+Theorem sign_verify_export_asis_refuted :
+  sig_row_consistent secp_p1363_asis = false /\
+  (let k := created_key secp_p1363_asis 1234567 7 in
+   match svc_sign (inst_sign false) k 3 5 with
+   | Some sig => svc_verify (inst_verify false) (reimport k (kt_import_enc secp_p1363_asis)) sig 3
+   | None => true
+   end) = false.
+Proof. split; vm_compute; reflexivity. Qed.
+Print Assumptions sign_verify_export_asis_refuted.
+
+(* ===== MAC ===== *)
+Theorem mac_accepts_what_was_produced :
+  forall (core_mac : N -> bytes -> bytes), (forall k d, core_mac k d <> []) ->
+  forall (k : skey) (d : bytes), svc_verify_mac core_mac [k] (svc_mac core_mac k d) d = true.
+Proof. exact mac_accepts_own. Qed.
+Print Assumptions mac_accepts_what_was_produced.
+
+(* whatever is accepted for data d is EXACTLY prefix ++ tag of d under that key: any altered tag, any tag of other data
+   or of another key (unless the core MAC collides) is rejected *)
+Theorem mac_accepts_only_what_was_produced :
+  forall (core_mac : N -> bytes -> bytes) (k : skey) (tag d : bytes),
+  svc_verify_mac core_mac [k] tag d = true -> tag = svc_mac core_mac k d.
+Proof. exact mac_accepts_only_exact. Qed.
+Print Assumptions mac_accepts_only_what_was_produced.
+
+(* ===== ciphertext layout of Encrypt ===== *)
+(* for ANY keyset (any number of keys, any primary): Encrypt returns exactly (body, nonce) of the primary key's Tink
+   ciphertext, and prefix ++ nonce ++ cipher — what Decrypt re-attaches for that key — is that ciphertext again *)
+Theorem encrypt_layout_split_join :
+  forall (raw_enc : N -> bytes -> bytes -> bytes -> bytes) (ks : keyset) (e : entry) (nonce aad m : bytes),
+  primary ks = Some e -> length nonce = iv_size (e_prim e) ->
+  svc_encrypt raw_enc ks nonce aad m = Some (raw_enc (e_mat e) nonce aad m, nonce) /\
+  tink_encrypt raw_enc ks nonce aad m = Some (prefix_of e ++ nonce ++ raw_enc (e_mat e) nonce aad m).
+Proof. exact encrypt_layout. Qed.
+Print Assumptions encrypt_layout_split_join.
+
+(* ===== non-vacuity ===== *)
+Example p1363_leading_zero_66 :
+  let r := 5 in let s := 256 ^ 65 + 9 in
+  length (p1363_encode 66 r s) = 132%nat /\ nth 65 (p1363_encode 66 r s) 7 = 5 /\ nth 66 (p1363_encode 66 r s) 7 = 1 /\
+  p1363_decode (p1363_encode 66 r s) = Some (r, s).
+Proof. vm_compute. repeat split. Qed.
+
+Example der_examples :
+  der_decode (der_encode 127 128) = Some (127, 128)%Z /\ der_encode 127 128 = [48; 7; 2; 1; 127; 2; 2; 0; 128] /\
+  der_decode [48; 7; 2; 1; 127; 2; 2; 0; 128; 0] = None /\                (* trailing byte *)
+  der_decode [48; 129; 7; 2; 1; 127; 2; 2; 0; 128] = None /\              (* non-minimal length *)
+  der_decode [48; 7; 2; 2; 0; 127; 2; 1; 128] = None /\                   (* non-minimal integer *)
+  length (der_encode (2 ^ 520) (2 ^ 519)) = 139%nat /\ der_decode (der_encode (2 ^ 520) (2 ^ 519)) = Some (2 ^ 520, 2 ^ 519)%Z.
+Proof. vm_compute. repeat split. Qed.
+
+Example table_has_the_types :
+  length (filter (fun r => is_sig r && kt_creatable r) table) = 9%nat /\
+  length (filter (fun r => is_aead r && kt_creatable r) table) = 5%nat.
+Proof. vm_compute. split; reflexivity. Qed.
+
+Example instance_meets_hypotheses :
+  (forall o k m rd, inst_verify o k m (inst_sign o k m rd) = true) /\
+  (forall o k m rd k' m', (k <> k' \/ m <> m') -> inst_verify o k' m' (inst_sign o k m rd) = false).
+Proof. split; [exact inst_sig_correct | exact inst_sig_sep]. Qed.
+
+Example sign_verify_export_nonvacuous :
+  let rw := nth 11 table secp_p1363_asis in           (* ECDSAP521IEEEP1363 *)
+  let k := created_key rw 42 7 in
+  kt_enc rw = EncP1363 66 /\
+  match svc_sign (inst_sign false) k 3 5 with
+  | Some sig => length sig = 132%nat /\ svc_verify (inst_verify false) (reimport k (kt_import_enc rw)) sig 3 = true /\
+                svc_verify (inst_verify false) (reimport k (kt_import_enc rw)) sig 4 = false
+  | None => False
+  end.
+Proof. vm_compute. repeat split. Qed.
